@@ -194,6 +194,8 @@ theorem contentM_inv {sh : Shape} {dim : Nat} {st st' : St} {line : Nat} {s : St
     | mesh _ _ _ => simp [contentM, gErr] at h
     | part _ => simp [contentM, gErr] at h
     | partition _ _ _ _ _ _ => simp [contentM, gErr] at h
+    | chart _ _ => simp [contentM, gErr] at h
+    | chartItem => simp [contentM, gErr] at h
     | verts count acc =>
       obtain ⟨v, hv, hc, rfl⟩ := contentM_verts rfl h
       refine ⟨rfl, rfl, h3, stackInv_replace h4 trivial ?_⟩
@@ -296,6 +298,11 @@ theorem closeTop_inv {sh : Shape} {dim : Nat} {st st' : St} {line : Nat}
     cases f with
     | root => simp [closeTop] at h; subst h; exact ⟨rfl, rfl, h3, stackInv_tail h4⟩
     | dummy => simp [closeTop] at h; subst h; exact ⟨rfl, rfl, h3, stackInv_tail h4⟩
+    | chartItem => simp [closeTop] at h; subst h; exact ⟨rfl, rfl, h3, stackInv_tail h4⟩
+    | chart name c =>
+      cases c with
+      | none => simp [closeTop, gErr] at h
+      | some ch => simp [closeTop] at h; subst h; exact ⟨rfl, rfl, h3, stackInv_tail h4⟩
     | mesh sizes v topo =>
       simp only [closeTop] at h
       split at h
@@ -506,7 +513,7 @@ theorem openM_inv {sh : Shape} {dim : Nat} {st st' : St} {line : Nat} {m : Marku
       simp only [openM] at h
       repeat' split at h
       all_goals first
-        | (simp [gErr] at h; done)
+        | (simp [gErr, cErr] at h; done)
         | exact closeTop_inv ⟨rfl, rfl, h3, stackInv_push h4 (by trivial) (fun _ _ _ _ _ => by trivial)⟩ h
         | (simp only [Except.ok.injEq] at h; subst h
            exact ⟨rfl, rfl, h3, stackInv_push h4 (by trivial) (fun _ _ _ _ _ => by trivial)⟩)
@@ -536,6 +543,22 @@ theorem openM_inv {sh : Shape} {dim : Nat} {st st' : St} {line : Nat} {m : Marku
              (fun _ _ _ _ hh => by
                cases hh
                exact ⟨hd1, by omega, rfl, rfl, rfl, Nat.zero_le _, fun _ hr => by cases hr⟩)⟩)
+    | chart name c =>
+      have hrest : stackInv shape d rest := stackInv_tail h4
+      simp only [openM] at h
+      repeat' split at h
+      all_goals first
+        | (simp [gErr] at h; done)
+        | exact closeTop_inv ⟨rfl, rfl, h3,
+            stackInv_push (stackInv_push hrest (by trivial) (fun _ _ _ _ _ => by trivial))
+              (by trivial) (fun _ _ _ _ hh => by cases hh)⟩ h
+        | (simp only [Except.ok.injEq] at h; subst h
+           exact ⟨rfl, rfl, h3, stackInv_push hrest (by trivial) (fun _ _ _ _ _ => by trivial)⟩)
+        | (simp only [Except.ok.injEq] at h; subst h
+           exact ⟨rfl, rfl, h3,
+            stackInv_push (stackInv_push hrest (by trivial) (fun _ _ _ _ _ => by trivial))
+              (by trivial) (fun _ _ _ _ hh => by cases hh)⟩)
+    | chartItem => simp [openM, gErr] at h
     | verts _ _ => simp [openM, gErr] at h
     | topo _ _ _ _ _ => simp [openM, gErr] at h
     | mapping _ _ _ => simp [openM, gErr] at h
@@ -595,11 +618,37 @@ theorem Inv_init (sh : Shape) (dim : Nat) :
   intro _ hm
   cases hm
 
-/-- an accepted `parseBody` run: the final scanner state satisfies the invariant and supplies the node;
-    the reported shape and dimension are the ones `parseBody` was called with -/
-theorem parseBody_ok_inv {sh sh' : Shape} {dim dim' : Nat} {m : Markup} {iline : Nat} {rest : List Str}
+/-- the linker's first loop only touches the `chart` fields of the mesh parts -/
+theorem resolveLinks_fields : ∀ (links : List (Str × Str)) (n n' : Node), resolveLinks links n = some n' →
+    n'.mesh = n.mesh ∧ n'.partitions = n.partitions ∧ n'.charts = n.charts
+  | [], n, n', h => by simp [resolveLinks] at h; subst h; exact ⟨rfl, rfl, rfl⟩
+  | (pn, cn) :: rest, n, n', h => by
+    simp only [resolveLinks] at h
+    split at h
+    · cases h
+    · have := resolveLinks_fields rest _ n' h; exact this
+
+/-- the linker's last loop only touches the `topo` fields of the mesh parts -/
+theorem resolveDeduct_fields : ∀ (ded : List Str) (n n' : Node), resolveDeduct ded n = some n' →
+    n'.mesh = n.mesh ∧ n'.partitions = n.partitions ∧ n'.charts = n.charts
+  | [], n, n', h => by simp [resolveDeduct] at h; subst h; exact ⟨rfl, rfl, rfl⟩
+  | pn :: rest, n, n', h => by
+    simp only [resolveDeduct] at h
+    split at h
+    · split at h
+      · cases h
+      · have := resolveDeduct_fields rest _ n' h; exact this
+    · cases h
+
+/-- an accepted `parseBody` run, opened up: the final scanner state and the two linker loops -/
+theorem parseBody_ok_run {sh sh' : Shape} {dim dim' : Nat} {m : Markup} {iline : Nat} {rest : List Str}
     {n : Node} (h : parseBody sh dim m iline rest = .ok sh' dim' n) :
-    sh' = sh ∧ dim' = dim ∧ ∃ st : St, Inv sh dim st ∧ n = st.node := by
+    sh' = sh ∧ dim' = dim ∧ ∃ (st : St) (n1 : Node),
+      scanLoop meshClient rest iline [m.name]
+        { shape := sh, dim := dim, stack := [Frame.root], node := { mesh := none, parts := [], partitions := [] },
+          links := [], deduct := [], unmodelled := false } = .ok st ∧
+      st.unmodelled = false ∧ resolveLinks st.links st.node = some n1 ∧ mapOutOfRange n1 = false ∧
+      resolveDeduct st.deduct n1 = some n := by
   unfold parseBody at h
   split at h
   · cases h
@@ -607,12 +656,31 @@ theorem parseBody_ok_inv {sh sh' : Shape} {dim dim' : Nat} {m : Markup} {iline :
     split at h
     · cases h
     · rename_i st hscan
-      have hI := scanLoop_inv _ _ _ _ _ (Inv_init sh dim) hscan
-      repeat' split at h
-      all_goals first
-        | (cases h; done)
-        | (simp only [Outcome.ok.injEq] at h
-           exact ⟨h.1.symm, h.2.1.symm, st, hI, h.2.2.symm⟩)
+      split at h
+      · cases h
+      · rename_i hu
+        split at h
+        · cases h
+        · rename_i n1 hl
+          split at h
+          · cases h
+          · rename_i ho
+            split at h
+            · cases h
+            · rename_i n2 hd
+              simp only [Outcome.ok.injEq] at h
+              obtain ⟨rfl, rfl, rfl⟩ := h
+              exact ⟨rfl, rfl, st, n1, hscan, by simpa using hu, hl, by simpa using ho, hd⟩
+
+/-- an accepted `parseBody` run: the final scanner state satisfies the invariant and supplies the root mesh
+    (the linker loops change mesh parts only); the reported shape and dimension are the ones `parseBody` was
+    called with -/
+theorem parseBody_ok_inv {sh sh' : Shape} {dim dim' : Nat} {m : Markup} {iline : Nat} {rest : List Str}
+    {n : Node} (h : parseBody sh dim m iline rest = .ok sh' dim' n) :
+    sh' = sh ∧ dim' = dim ∧ ∃ st : St, Inv sh dim st ∧ n.mesh = st.node.mesh := by
+  obtain ⟨h1, h2, st, n1, hscan, _, hl, _, hd⟩ := parseBody_ok_run h
+  refine ⟨h1, h2, st, scanLoop_inv _ _ _ _ _ (Inv_init sh dim) hscan, ?_⟩
+  rw [(resolveDeduct_fields _ _ _ hd).1, (resolveLinks_fields _ _ _ hl).1]
 
 /-- `parseBody` reports exactly the shape and dimension it was called with -/
 theorem parseBody_ok_type {sh sh' : Shape} {dim dim' : Nat} {m : Markup} {iline : Nat} {rest : List Str}
@@ -624,8 +692,8 @@ theorem parseBody_ok_type {sh sh' : Shape} {dim dim' : Nat} {m : Markup} {iline 
 theorem parseBody_mesh_wf' {sh sh' : Shape} {dim dim' : Nat} {m : Markup} {iline : Nat} {rest : List Str}
     {n : Node} {msh : Mesh} (h : parseBody sh dim m iline rest = .ok sh' dim' n)
     (hm : n.mesh = some msh) : msh.wf sh' dim' = true := by
-  obtain ⟨rfl, rfl, st, hI, rfl⟩ := parseBody_ok_inv h
-  exact hI.2.2.1 msh hm
+  obtain ⟨rfl, rfl, st, hI, he⟩ := parseBody_ok_inv h
+  exact hI.2.2.1 msh (he ▸ hm)
 
 theorem parseBody_mesh_wf (sh : Shape) (dim : Nat) (m : Markup) (iline : Nat) (rest : List Str)
     (n : Node) (msh : Mesh) :
